@@ -28,6 +28,7 @@ func NewChanTimer[T any](ch chan T, d, period int64, name string) *TimerHandle {
 		return h
 	}
 	c := s.shadowOf(ch)
+	c.timerFed = true
 	c.obj.Name = name + ".C"
 	if d < 0 {
 		d = 0
